@@ -304,6 +304,20 @@ def run_shard(spec, R):
         R.count("typed_roundtrip", len(vox) - 1)
         bkc = cc.to_voxel_center(cs)
         R.check(np.array_equal(np.asarray(bkc, float), vox + 0.5), "typed_roundtrip", case)
+        # fractional voxel positions (centres and other interior positions) written as plain lists / tuples /
+        # lists of lists are positions like the same numbers in an array
+        fr = vox + float(offs[-1])
+        fbatch = np.asarray(cs.coordinate(fr), float)
+        ok_l, lbatch = R.guarded("forward_batch_list", lambda: cs.coordinate(fr.tolist()))
+        if ok_l:
+            R.check(np.array_equal(np.asarray(lbatch, float), fbatch), "list_form_equals_array_form", lambda: {**case, "what": "batch of fractional positions as list of lists"})
+        for k in pick[:6]:
+            for f in ((vox[k] + 0.5).tolist(), tuple(float(x) for x in vox[k] + 0.5), fr[k].tolist()):
+                ok_l, single = R.guarded("forward_single", lambda: cs.coordinate(f))
+                if ok_l:
+                    exp_l = np.asarray(cs.coordinate(np.asarray(f, float)), float)
+                    R.check(np.array_equal(np.asarray(single, float), exp_l), "list_form_equals_array_form",
+                            lambda: {**case, "position": list(f), "form": type(f).__name__, "got": np.asarray(single, float).tolist(), "array_form": exp_l.tolist()})
         # pure type conversions (no coordinate system involved)
         tv = vc.to_voxel()
         bad = np.argwhere((np.asarray(tv) != vox).any(axis=1))
